@@ -35,6 +35,8 @@ def common_kwargs(d, root, with_default=True):
         kw["sensitive"] = True
     if d.get("fname"):
         kw["name"] = d["fname"]
+    if d.get("help"):
+        kw["help"] = d["help"]
     if d.get("fval", "none") != "none":
         kw["validator"] = FIELD_VALIDATORS[d["fval"]]
     env = d.get("env") or {"m": "inherit"}
